@@ -123,10 +123,10 @@ def worldx3(qb, tb):
     }
 
 
-def kgx(qb=60, tb=600):
+def kgx(prop="C10", qb=60, tb=600):
     return {
         "name": "kgx", "dir": "kgx", "variant": "verif",
-        "cmd": ["{build}/harness/kgx/kgx", "--prop", "C10", "--tier", "{tier}", "--shard", "{shard}", "--nshards", "{nshards}",
+        "cmd": ["{build}/harness/kgx/kgx", "--prop", prop, "--tier", "{tier}", "--shard", "{shard}", "--nshards", "{nshards}",
                 "--out", "{out}", "--seed", "{seed}", "--budget", "{budget}"],
         "shards": {"quick": 16, "thorough": 16},
         "budget": {"quick": qb, "thorough": tb},
@@ -152,7 +152,7 @@ CHECKS = {
     "C02": {"level": "model_checking", "parts": [enginex("C02")], "assumptions": A_ENGINE},
     "C03": {"level": "model_checking", "parts": [enginex("C03")], "assumptions": A_ENGINE},
     "C04": {"level": "fault_enumeration", "parts": [crashx()], "assumptions": []},
-    "C05": {"level": "model_checking", "parts": [enginex("C05"), schedx("C05"), tsanx("C05")], "assumptions": A_ENGINE + A_SCHED},
+    "C05": {"level": "model_checking", "parts": [enginex("C05"), schedx("C05"), tsanx("C05"), kgx("C05", qb=120, tb=900)], "assumptions": A_ENGINE + A_SCHED},
     "C06": {"level": "model_checking", "parts": [enginex("C06"), schedx("C06"), tsanx("C06")], "assumptions": A_ENGINE + A_SCHED},
     "C07": {"level": "model_checking", "parts": [enginex("C07")], "assumptions": A_ENGINE},
     "C08": {"level": "model_checking", "parts": [worldx("C08", 200, 1500)], "assumptions": []},
